@@ -36,11 +36,23 @@ def _switch_source(blocks, si):
         return None
     d = t['discr']['l']
     if t['discr'].get('ty') == 'bool':
-        # the bool itself, unless it is computed in this block
-        for s in bb['stmts']:
-            if s['s'] == 'assign' and s['place']['l'] == d:
+        # the bool itself, unless it is computed in this block (a plain copy of another bool local made here is looked through)
+        for _ in range(3):
+            last = None
+            for i, s in enumerate(bb['stmts']):
+                if s['s'] == 'assign' and s['place']['l'] == d:
+                    last = (i, s)
+            if last is None:
+                return ('bool', d)
+            i, s = last
+            rv = s['rv']
+            if s['place']['p'] or rv['r'] != 'use' or 'l' not in rv['a'] or rv['a']['p']:
                 return None
-        return ('bool', d)
+            x = rv['a']['l']
+            if any(s2['s'] == 'assign' and s2['place']['l'] == x for s2 in bb['stmts'][i:]):
+                return None
+            d = x
+        return None
     for s in reversed(bb['stmts']):
         if s['s'] == 'assign' and s['place']['l'] == d and not s['place']['p']:
             if s['rv']['r'] == 'discr' and not s['rv']['place']['p']:
